@@ -45,8 +45,11 @@ type c14Trace struct {
 	c         *vnet.Cluster
 }
 
-func runFifo(s Spec, epoch int64) *c14Trace {
+func runFifo(s Spec, epoch int64, mods ...func(*vnet.Config)) *c14Trace {
 	cfg := fifoConfig(s, epoch)
+	for _, f := range mods {
+		f(&cfg)
+	}
 	c := vnet.NewCluster(cfg)
 	r := rand.New(rand.NewSource(s.Seed + 5))
 	for i := r.Intn(6); i > 0; i-- {
